@@ -247,6 +247,18 @@ class Mol:
         return m
 
 
+def mirror_ast(mol):
+    """What Molecule.gen_mirror() denotes: the same elements as if written in reverse order, every stochastic object with its
+    terminal descriptors swapped; tokens, weights, lists and laws untouched (README / docstring of gen_mirror)."""
+    els = []
+    for e in reversed(mol.elements):
+        if isinstance(e, Stoch):
+            els.append(Stoch(left=e.right, right=e.left, repeats=e.repeats, ends=e.ends, dist=e.dist, sep=e.sep))
+        else:
+            els.append(e)
+    return Mol(elements=els, mixture=mol.mixture, raw=None)
+
+
 @dataclass
 class Sys:
     mols: List[Mol]
